@@ -23,7 +23,15 @@ def main():
             # the commit of /repo that carries the repair (recorded by harness/applyfix.sh)
             mm = re.search(r"fixes/(F[\w.-]+\.diff)", line)
             if mm and mm.group(1) in commits:
-                line = line.replace("<commit-to-be-filled>", commits[mm.group(1)])
+                line = re.sub(r"<commit-to-be-filled[^>]*>", commits[mm.group(1)], line)
+            elif "<commit-to-be-filled" in line:
+                # a line that names the defect only by its id (F1, F61 ...): the diff whose name starts with that id
+                mi = re.search(r"\bF0*(\d+)\b", line.split(">", 1)[-1])
+                if mi:
+                    for name, commit in commits.items():
+                        if re.match(r"F0*%s-" % mi.group(1), name):
+                            line = re.sub(r"<commit-to-be-filled[^>]*>", commit, line)
+                            break
             fixed.append(line)
     (ROOT / "known_findings.json").write_text(json.dumps(dict(findings=findings, fixed=fixed), indent=1, ensure_ascii=False) + "\n")
     checks = []
